@@ -38,6 +38,11 @@ def gen_histories(chk, mdl, n):
     for k, t in enumerate(tricky[: max(200, n // 10)]):
         b = bases[k % len(bases)]
         out.append(uris.hist([('p', 0, t), ('p', 1, b), ('n', 0, 8 if k % 2 else 63), ('a', 2, 0, 1, k % 2), ('n', 2, 63), ('r', 3, 2, 1, (k // 2) % 2), ('o', 3), ('r', 4, 1, 2, 0)]))
+    # every IPv4 octet value in every position (the text written for an address comes from the octets, not from the host text):
+    # as a parsed URI made owner and normalized, and as the authority a reference brings into a resolution and out of a reference creation
+    for v in range(256):
+        h = "%d.%d.%d.%d" % (v, 255 - v, (v * 7 + 3) % 256, v)
+        out.append(uris.hist([('p', 0, "s://u@" + h + ":8/a/b"), ('o', 0), ('n', 0, 63), ('p', 1, "//" + h + "/c"), ('p', 2, "s://x/y"), ('a', 3, 1, 2, 0), ('r', 4, 3, 2, 0), ('o', 4)]))
     for _ in range(n):
         steps = []
         L = r.choice([3, 5, 8, 12])
